@@ -81,7 +81,12 @@ def build_ctor(d):
     fluents = {}
     for key, f in d["fluents"]:
         pf = PDDLFunction(f["name"], {p: ty(t) for p, t in f["sig"]}, {n: k for n, k in f.get("rep", [])})
-        pf.set_value(float("nan") if f["val"] == "nan" else float.fromhex(f["val"]))
+        if f.get("unset"):
+            pass                                    # never given a value: PDDLFunction's default
+        elif "ival" in f:
+            pf.set_value(int(f["ival"]))            # a Python int through the public setter
+        else:
+            pf.set_value(float("nan") if f["val"] == "nan" else float.fromhex(f["val"]))
         fluents[key] = pf
     return State(preds, fluents, is_init=d.get("init", False))
 
